@@ -51,6 +51,20 @@ def _run(ctx, chk, prog, tag):
                               "cbor_set_allocs")
     chk.rule("C17.no-global-write", "writes_global(f) is empty for every library function except cbor_set_allocs")
     chk.rule("C17.reentrant-libc", "every external callee is reentrant (no hidden libc state)")
+    chk.rule("C17.hooks-shared", "the allocator hooks, the one piece of mutable state the library has, are ordinary process-wide objects: an "
+             "allocator configured once before any thread starts is the allocator of every thread (a thread-local hook silently falls "
+             "back to its initial value - libc - in every thread but the configuring one, and a block crosses threads between two allocators)")
+    from effects import ALLOC_GLOBALS as _AG
+    nh = 0
+    for gname in _AG:
+        g_ = prog.globals.get(gname)
+        if g_ is None:
+            continue
+        nh += 1
+        tl = bool(g_.get("thread_local"))
+        chk.ob("C17.hooks-shared", "%s is a process-wide object" % gname, not tl, g_.get("unit", "src/allocators.c"), key="hook:" + gname,
+               detail="" if not tl else "declared thread-local: cbor_set_allocs only reaches the calling thread")
+    chk.floor("C17.hooks-shared", "allocator hooks", nh, 3)
     chk.rule("C17.control", "positive control: seeded hidden state in /verif/controls is reported")
     chk.assumptions.append("release configuration: the debug build's _cbor_enable_assert flag (written only by test code) is not part of the shipped library")
     chk.assumptions.append("the allocator is configured once before threads start (the property's own proviso)")
